@@ -1512,6 +1512,27 @@ func c15History(t *testing.T, o *vOut, r *vRand, idx int) {
 
 func (r *vRand) pickStr(xs ...string) string { return xs[r.intn(len(xs))] }
 
+// c15KnownEmptiedPrefixSetInvert: KNOWN FINDING (not repaired, maintainers' call; see
+// known_findings.json, class soft-reset!=fresh:emptied-prefix-set-invert — nothing else uses this
+// class, and the random generator never empties a prefix-set matched with INVERT). The import
+// policy rejects every route that a prefix-set {10.1.0.0/16 24..24} does NOT match (INVERT). The
+// set's last member is removed in place: the emptied set keeps that member's address family,
+// INVERT over it is true for every route, both routes are rejected after the soft reset in (the
+// model agrees: nothing matches an empty set). A server configured with the empty set from the
+// start has a set without a family: PrefixCondition.Evaluate answers false on the family
+// mismatch before looking at the option, nothing is rejected — the fresh evaluation differs.
+var c15KnownEmptiedPrefixSetInvert = append(append([]string{}, c15CorpusPeers...),
+	"pol imp 1 1 0 0 0 1 0 0 0 0 0 0 0 0 2 0 0 0 1 2 1 167837696 16 24 24 0 0 0",
+	"up 0", "up 1", "up 2",
+	"ann 0 0 0 1 0 0 0 0 0 0 0 0 0 1 2 1 65001", // 10.1.0.0/24: in the set, accepted
+	"ann 1 1 0 2 0 0 0 0 0 0 0 0 0 1 2 1 65002", // 10.2.0.0/24: not in the set, rejected
+	"check",
+	"polmode 2",
+	"pol imp 1 1 0 0 0 1 0 0 0 0 0 0 0 0 2 0 0 0 1 2 0 0 0 0",
+	"softinall",
+	"check",
+	"fresh soft-reset!=fresh:emptied-prefix-set-invert")
+
 // c15Corpus: deterministic cases kept from past disagreements (run first). Directives that are
 // not protocol lines: `polmode N` (how the next `pol` is installed, see install), `check`,
 // `fresh` (compare with a fresh server that has the current policies from the start).
@@ -1611,6 +1632,7 @@ func TestVerifC15(t *testing.T) {
 	for _, c := range c15Corpus {
 		c15Replay(t, o, c).w.stop()
 	}
+	c15Replay(t, o, c15KnownEmptiedPrefixSetInvert).w.stop()
 	r := &vRand{s: o.seed*15485863 + 15}
 	n := 160
 	if o.thorough {
@@ -1691,7 +1713,11 @@ func c15Replay(t *testing.T, o *vOut, lines []string) *c15World {
 			}
 			fw.flushAll()
 			if have, want := cw.snapshot(), fw.snapshot(); have != want {
-				o.fail("soft-reset!=fresh:corpus", map[string]any{"after_soft_reset": have, "fresh_server": want, "history": rn.hist()})
+				cls := "soft-reset!=fresh:corpus"
+				if len(f) > 1 {
+					cls = f[1] // a corpus case that documents a known finding reports under its own class
+				}
+				o.fail(cls, map[string]any{"after_soft_reset": have, "fresh_server": want, "history": rn.hist()})
 			}
 			fw.w.stop()
 		default:
